@@ -57,9 +57,41 @@ func genC08SlowLosers(r *Rnd, t Tier) *Case {
 	return &Case{Sc: sc}
 }
 
+// genC08TimeoutTie: a function that returns at the very instant its per-attempt Timeout fires, under a
+// retry policy, and a caller that cancels while the retry policy waits to retry. Whichever of the two
+// wins the tie, the Timeout's verdict belongs to that attempt only.
+func genC08TimeoutTie(r *Rnd, t Tier) *Case {
+	unit := ms
+	sc := &Scenario{Family: "c08"}
+	L := time.Duration(r.Range(3, 12)) * unit
+	rp := PolicySpec{Kind: KRetry, MaxRetries: r.Range(1, 3), DelayKind: DelayFixed, Delay: time.Duration(r.Range(4, 12)) * unit}
+	sc.Policies = []PolicySpec{rp, {Kind: KTimeout, Limit: L}}
+	sc.Stacks = [][]int{{0, 1}}
+	var s Script
+	for i := 0; i < 4; i++ {
+		s.Outcomes = append(s.Outcomes, Outcome{Dur: pick(r, L, L, L, L-1, L+1), Err: pick(r, EA, EB, ENil), Result: pick(r, 0, 1), Coop: pick(r, CoopReturn, CoopResult, CoopIgnore)})
+	}
+	sc.Scripts = []Script{s}
+	src := pick(r, SrcCtxCancel, SrcCtxCancel, SrcResultCancel)
+	op := Op{Kind: "exec", CancelSrc: src, Entry: pick(r, EnGetExec, EnRunExec, EnGet)}
+	if src == SrcResultCancel {
+		op.Entry = pick(r, EnGetExecAsync, EnRunExecAsync)
+	} else {
+		op.Ctx = CtxCancel
+	}
+	k := r.Range(1, 2) // during the delay after attempt k
+	op.CancelAt = time.Duration(k)*L + time.Duration(k-1)*rp.Delay + time.Duration(r.Range(1, int(rp.Delay/unit)-1))*unit
+	sc.Clients = []Client{{Ops: []Op{{Kind: "sleep", Dur: unit / 2}, op}}}
+	terminating(sc)
+	return &Case{Sc: sc}
+}
+
 func genC08(r *Rnd, t Tier) *Case {
 	if r.P(0.04) {
 		return genC08SlowLosers(r, t)
+	}
+	if r.P(0.04) {
+		return genC08TimeoutTie(r, t)
 	}
 	unit := ms
 	sc := &Scenario{Family: "c08"}
